@@ -76,8 +76,8 @@ def bounds(tier):
         "kmer_base": "2..4", "kmer_k": "2..4" if q else "2..5", "kmer_span": "<= k+2",
         "kmer_seq_len": "<= span+2 (n^len <= 2048)" if q else "<= span+3 (n^len <= 16384)",
         "seqapi_len": {"nuc": 4, "iupac": 3 if not q else "3 (2 + seed-chosen third letter block at quick)", "protein": 3 if not q else "2 + seed block", "general": 3},
-        "translate_len": "<=8 (default,1,synthetic,4 seed-chosen NCBI), <=6 all 25 NCBI, 9 over {A,T,G}" if q else
-                         "<=9 all tables, 10-11 over {A,T,G} for 6 tables",
+        "translate_len": "<=8 (default, 1, syn1, syn2, 2 seed-chosen NCBI), <=6 all 25 NCBI + 4 synthetic, 9 over {A,T,G} (default, 1, syn1, syn2)" if q else
+                         "<=8 all 25 NCBI + default + 4 synthetic tables; 9 (all of ACGT) for default, 1, syn1, syn2; 10-11 over {A,T,G} for default, syn1",
     }
 
 
@@ -1829,10 +1829,12 @@ def shards(tier, seed):
     # translation
     if quick:
         rest = [t for t in NCBI_IDS if t != 1]
-        main = ["default", 1, "syn1", "syn2"] + sorted(_sel(rest, 4, seed))
+        main = ["default", 1, "syn1", "syn2"] + sorted(_sel(rest, 2, seed))
         out.append({"kind": "translate", "tables": alltabs, "len": 0, "letters": "ACGT", "extras": True, "w": 1})
-        for L in range(1, 6):
+        for L in range(1, 5):
             out.append({"kind": "translate", "tables": alltabs, "len": L, "letters": "ACGT", "w": 3})
+        for p in "ACGT":
+            out.append({"kind": "translate", "tables": alltabs, "len": 5, "letters": "ACGT", "prefix": p, "w": 5})
         for p in itertools.product("ACGT", repeat=2):
             out.append({"kind": "translate", "tables": alltabs, "len": 6, "letters": "ACGT", "prefix": "".join(p), "w": 5})
             out.append({"kind": "translate", "tables": main, "len": 7, "letters": "ACGT", "prefix": "".join(p), "w": 4})
@@ -1844,15 +1846,17 @@ def shards(tier, seed):
         out.append({"kind": "translate", "tables": alltabs, "len": 0, "letters": "ACGT", "extras": True, "w": 1})
         for L in range(1, 6):
             out.append({"kind": "translate", "tables": alltabs, "len": L, "letters": "ACGT", "w": 3})
-        for L, pl_ in ((6, 2), (7, 3), (8, 4), (9, 4)):
+        for L, pl_ in ((6, 1), (7, 2), (8, 3)):
             for i in range(0, len(alltabs), 8):
                 for p in itertools.product("ACGT", repeat=pl_):
                     out.append({"kind": "translate", "tables": alltabs[i:i + 8], "len": L, "letters": "ACGT",
                                 "prefix": "".join(p), "w": 3 + L})
-        six = ["default", 1, 2, 11, "syn1", "syn2"]
+        four = ["default", 1, "syn1", "syn2"]
+        for p in itertools.product("ACGT", repeat=3):
+            out.append({"kind": "translate", "tables": four, "len": 9, "letters": "ACGT", "prefix": "".join(p), "w": 12})
         for L in (10, 11):
-            for p in itertools.product("ATG", repeat=4):
-                out.append({"kind": "translate", "tables": six, "len": L, "letters": "ATG", "prefix": "".join(p), "w": 3 + L})
+            for p in itertools.product("ATG", repeat=L - 7):
+                out.append({"kind": "translate", "tables": four[::2], "len": L, "letters": "ATG", "prefix": "".join(p), "w": 3 + L})
     out.sort(key=lambda s: -s["w"])
     r = seed % 7
     return out[r:] + out[:r] if out else out
